@@ -2,11 +2,11 @@ package interp
 
 import (
 	"fmt"
-	"os"
-	"sync"
 	"go/types"
+	"os"
 	"sort"
 	"strings"
+	"sync"
 	"time"
 
 	"golang.org/x/tools/go/ssa"
@@ -75,74 +75,76 @@ type PathResult struct {
 
 // Config is shared by all workers of one harness run.
 type Config struct {
-	Prog        *ssa.Program
-	Tier        int
-	SolverKind  string
-	TimeoutMs   int
-	MaxInstrs   int
-	MaxDepth    int
-	StubPkgs    map[string]bool // packages whose functions are no-ops returning zero
-	Params      map[string]int
-	Trace       bool
-	SharedInit  bool
-	EagerAll    bool
-	EagerInit   []string // packages initialised before the harness runs (registries the real program fills at start-up)
+	Prog       *ssa.Program
+	Tier       int
+	SolverKind string
+	TimeoutMs  int
+	MaxInstrs  int
+	MaxDepth   int
+	StubPkgs   map[string]bool // packages whose functions are no-ops returning zero
+	Params     map[string]int
+	Trace      bool
+	SharedInit bool
+	EagerAll   bool
+	EagerInit  []string // packages initialised before the harness runs (registries the real program fills at start-up)
 }
 
 // Engine is one worker: term store, solver, and the state of the current path.
 type Engine struct {
-	cfg    *Config
-	T      *sym.Store
-	S      *sym.Solver
-	prog   *ssa.Program
-	sizes  types.Sizes
+	cfg   *Config
+	T     *sym.Store
+	S     *sym.Solver
+	prog  *ssa.Program
+	sizes types.Sizes
 
 	// per path
-	pc        []*sym.Term
-	prefix    []int64
-	decisions []int64
-	cursor    int
-	newWork   [][]int64
-	fresh     map[string]int
-	symOrder  []string
-	symTerms  map[string]*sym.Term
-	instrs    int
-	maxInstrs int
-	noPanic   bool
-	covers    map[string]bool
-	notes     []string
-	stubsUsed map[string]bool
-	replace   map[string]Value
-	stubPkgs  map[string]bool
-	violations []*Violation
-	symBranches int
-	assumes   int
-	unknowns  int
-	poisonReads int
-	globals   map[*ssa.Global]*Value
-	pkgInit   map[*ssa.Package]int // 0 none, 1 running, 2 done, 3 never (globals marked)
-	forceInit map[string]bool
-	pools     map[*Value][]Value // sync.Pool contents in recycling mode (verif.PoolReuse)
+	pc            []*sym.Term
+	prefix        []int64
+	decisions     []int64
+	cursor        int
+	newWork       [][]int64
+	fresh         map[string]int
+	symOrder      []string
+	symTerms      map[string]*sym.Term
+	instrs        int
+	maxInstrs     int
+	noPanic       bool
+	covers        map[string]bool
+	notes         []string
+	stubsUsed     map[string]bool
+	replace       map[string]Value
+	stubPkgs      map[string]bool
+	violations    []*Violation
+	symBranches   int
+	assumes       int
+	unknowns      int
+	poisonReads   int
+	globals       map[*ssa.Global]*Value
+	pkgInit       map[*ssa.Package]int // 0 none, 1 running, 2 done, 3 never (globals marked)
+	forceInit     map[string]bool
+	pools         map[*Value][]Value // sync.Pool contents in recycling mode (verif.PoolReuse)
+	finishBudget  int                // verif.MustFinish: instruction count at which the bound is exceeded (0 = off)
+	finishMsg     string
 	sharedGlobals map[*ssa.Global]*Value
 	sharedInit    map[*ssa.Package]int
-	mapNondet bool
-	harness   string
-	funcs     map[string]bool
-	maxAlloc  int
-	kv        map[string]Value // per-path scratch store (variable stub etc.)
-	mutexes   map[*Value]int
-	sched     *scheduler
-	timers    []*timerRec
-	depth     int
-	lastModel map[string]uint64
-	violSites map[string]bool
-	curFr     *frame
-	inInit    int
+	mapNondet     bool
+	harness       string
+	funcs         map[string]bool
+	maxAlloc      int
+	kv            map[string]Value // per-path scratch store (variable stub etc.)
+	mutexes       map[*Value]int
+	sched         *scheduler
+	timers        []*timerRec
+	depth         int
+	lastModel     map[string]uint64
+	violSites     map[string]bool
+	curFr         *frame
+	inInit        int
 }
 
 func NewEngine(cfg *Config) (*Engine, error) {
 	e := &Engine{cfg: cfg, T: sym.NewStore(), prog: cfg.Prog,
-		sizes: types.SizesFor("gc", "amd64"),
+		sizes:         types.SizesFor("gc", "amd64"),
 		sharedGlobals: map[*ssa.Global]*Value{}, sharedInit: map[*ssa.Package]int{},
 		violSites: map[string]bool{}}
 	s, err := sym.NewSolver(cfg.SolverKind, e.T, cfg.TimeoutMs)
@@ -187,6 +189,7 @@ func (e *Engine) resetPath(prefix []int64) {
 	e.maxAlloc = 0
 	e.kv = map[string]Value{}
 	e.pools = nil
+	e.finishBudget, e.finishMsg = 0, ""
 	e.mutexes = map[*Value]int{}
 	e.sched = nil
 	e.timers = nil
@@ -493,6 +496,20 @@ func (e *Engine) recordViolation(msg, where string, m map[string]uint64) {
 
 func (e *Engine) tick(n int) {
 	e.instrs += n
+	if e.finishBudget > 0 && e.instrs > e.finishBudget {
+		// verif.MustFinish: the code under test did not come back within its step bound
+		msg := "engine: " + e.finishMsg
+		e.finishBudget = 0
+		if e.check(e.T.True) != sym.Sat {
+			panic(pathEnd{"unknown", "path condition not satisfiable at MustFinish bound"})
+		}
+		m, err := e.S.Model(e.pathVars())
+		if err != nil {
+			panic(pathEnd{"unknown", "no model at MustFinish bound"})
+		}
+		e.recordViolation(msg, "MustFinish", m)
+		panic(pathEnd{"violation-end", msg})
+	}
 	if e.instrs > e.maxInstrs {
 		panic(pathEnd{"fuel", fmt.Sprintf("more than %d instructions on one path", e.maxInstrs)})
 	}
